@@ -629,7 +629,7 @@ func TestVerifC23(t *testing.T) {
 	}
 	r.Finish(vlib.Spec{
 		Level: "exploration",
-		Rule: "4-16 RPCs (unary/streaming, fail-fast/wait-for-ready, deadlines, failing per-RPC credentials, server behaviours echo / fail first K attempts / hang / header-then-hang / one-message-then-hang / status N, large unread messages) through the registered verif_scripted policy over two real servers (one with MAX_CONCURRENT_STREAMS 1-2), optional retry policy; 10-35 steps: publish a scripted picker (SubConn with Done, ErrNoSubConnAvailable, plain / status / wrapped errors, possibly pointing at a stopped backend), start, cancel, virtual sleep, Stop / GracefulStop / restart a backend, close the channel; after every step at exact quiescence: no Done ran twice, every Done-carrying pick of a returned RPC or of a superseded attempt ran once, RPCs blocked for a picker have re-picked on the latest generation, cancelled RPCs have returned; non-trivial = the case produced a pick with a Done callback; distinct = RPC outcome classes (kind, where it was parked / cancelled, final code, number of picks, not-ready path taken)",
+		Rule:  "4-16 RPCs (unary/streaming, fail-fast/wait-for-ready, deadlines, failing per-RPC credentials, server behaviours echo / fail first K attempts / hang / header-then-hang / one-message-then-hang / status N, large unread messages) through the registered verif_scripted policy over two real servers (one with MAX_CONCURRENT_STREAMS 1-2), optional retry policy; 10-35 steps: publish a scripted picker (SubConn with Done, ErrNoSubConnAvailable, plain / status / wrapped errors, possibly pointing at a stopped backend), start, cancel, virtual sleep, Stop / GracefulStop / restart a backend, close the channel; after every step at exact quiescence: no Done ran twice, every Done-carrying pick of a returned RPC or of a superseded attempt ran once, RPCs blocked for a picker have re-picked on the latest generation, cancelled RPCs have returned; non-trivial = the case produced a pick with a Done callback; distinct = RPC outcome classes (kind, where it was parked / cancelled, final code, number of picks, not-ready path taken)",
 		Assumptions: []string{"a pick whose Done ran with a nil error and BytesSent=false while the RPC is still running is read as the SubConn-not-READY path (no other path produces that DoneInfo)",
 			"the harness drives every stream to a non-nil RecvMsg error or cancels its context, as the NewStream contract requires"},
 		Floor: 25,
